@@ -66,6 +66,8 @@ def run(prog, rep, tier='quick', config='default'):
     acb_arms = {}
     for (bb, node, kind) in L.assignments(L.acb_locals):
         arms = [a for a, r in L.region.items() if bb in r]
+        if arms and L.is_copy_of_previous_acb(node, kind):
+            continue
         for a in arms:
             acb_arms.setdefault(a, []).append((bb, node, kind))
         if not arms and not (kind == 'stmt' and node['r']['rv'] == 'use' and any(fl == 'total_acb' for of, fl in mir.place_fields(node['r']['ops'][0]['pl']))
@@ -152,6 +154,58 @@ def run(prog, rep, tier='quick', config='default'):
                               detail='in the %s arm the old cost base is combined by %s (must be %s): %s' % (
                                   arm, sorted(ops) or 'no add/sub', want,
                                   'a return of capital subtracts from the cost base' if arm == 'Roc' else 'the amount adds to the cost base'))
+
+    # ------------------------------------------------------------------ R1f: no clamping on the way to a cost base or a gain
+    CLAMP = re.compile(r'::(unwrap_or|unwrap_or_else|unwrap_or_default|max|min|abs|clamp|saturating_sub|saturating_add|saturating_mul)$')
+    for what, table in (('cost base', acb_arms), ('capital gain', gain_arms)):
+        for arm, items in sorted(table.items()):
+            for (bb, node, kind) in items:
+                if kind != 'stmt' or not node['r'].get('ops'):
+                    continue
+                skip = set().union(*[r for a2, r in L.region.items() if a2 != arm])
+                org = mir.provenance(f, node['r']['ops'][0], follow_all_call_args=True, skip_blocks=skip)
+                cl = [c for c in org.calls if c.bb in L.region[arm] and CLAMP.search(c.callee)]
+                k = 'no-clamping|%s|%s' % (what.replace(' ', '-'), arm)
+                if cl:
+                    rep.violation('R1f', k, where=cl[0].where(), fn=f.name,
+                                  detail='the %s of a %s passes through %s: a clamped / saturated intermediate differs from the exact average-cost result '
+                                         '(e.g. net proceeds below zero)' % (what, arm, short(cl[0].callee)))
+                else:
+                    rep.ok('R1f', k, where=f.where(node), fn=f.name, detail='pure arithmetic (no unwrap_or / max / min / abs / clamp / saturating op)', trivial=True)
+
+    # ------------------------------------------------------------------ R1e: a named currency is never dropped
+    n_e = 0
+    for g in prog.product_fns():
+        if not g.name.startswith('portfolio::model::tx::') or g.kind not in ('Fn', 'AssocFn'):
+            continue
+        if not re.search(r'Result<std::option::Option<portfolio::model::currency::CurrencyAndExchangeRate>', g.ty.get(0, '')):
+            continue
+        cur_params = [p for p in range(1, g.argc + 1) if re.search(r'&std::option::Option<portfolio::model::currency::Currency>', g.ty.get(p, ''))]
+        if not cur_params:
+            continue
+        for i, b in g.blocks.items():
+            for s in b['stmts']:
+                if not (s['dst']['l'] == 0 and s['r']['rv'] == 'agg' and s['r']['kind'].endswith('Result::Ok')):
+                    continue
+                o = mir.provenance(g, s['r']['ops'][0], pass_through=set())
+                if not any(a.endswith('Option::None') for a in o.aggs) or any(a.endswith('Option::Some') for a in o.aggs):
+                    continue
+                n_e += 1
+                guarded = False
+                for (sbb, discr, vals, neg) in g.conditions_at(i):
+                    d = mir.provenance(g, discr, follow_all_call_args=True)
+                    tr = (vals != [0]) if vals is not None else (0 in (neg or []))
+                    if any(c.callee.endswith('Option::<T>::is_none') and (mir.provenance(g, c.args[0]).params & set(cur_params)) for c in d.calls) and tr:
+                        guarded = True
+                k = '%s|no-currency-means-no-rate-only' % g.name
+                if guarded:
+                    rep.ok('R1e', k, where=g.where(s), fn=g.name, detail='"no currency/rate pair" is returned only when no currency was given')
+                else:
+                    rep.violation('R1e', k, where=g.where(s), fn=g.name,
+                                  detail='a currency that was named explicitly can be dropped (Ok(None) is not confined to the "currency absent" case): e.g. an explicit CAD '
+                                         'commission on a USD trade would be converted at the trade\'s rate instead of 1')
+    if n_e == 0:
+        rep.violation('R1e', 'anchor-lost:currency-pair-validation', detail='anchor lost: the function validating a (currency, rate) pair of a CSV row')
 
     # ------------------------------------------------------------------ R1d: own exchange rate
     for arm in ('Buy', 'Sell'):
